@@ -205,6 +205,9 @@ func newNsRig(names []string, gated []bool) *nsRig {
 				r.mu.Lock()
 				r.held[hname] = append(r.held[hname], gate)
 				r.mu.Unlock()
+				// a gating middleware that already sorts the socket into a room (e.g. by its auth data)
+				// before it decides: the socket is in the adapter's room, but not yet accepted
+				socket.Join(sio.Room("r1"))
 				r.rec(nsObs{K: "mw", Side: "s", Conn: a.Conn, Nsp: hname, Sid: sid})
 				select {
 				case ok := <-gate:
@@ -721,6 +724,10 @@ func (t *nsTrack) apply(r *nsRig, sc *nsScenario, i int, op nsOp) {
 			}
 			if op.Ok {
 				t.state[kk] = "connected"
+				if t.rooms[kk] == nil {
+					t.rooms[kk] = map[string]bool{}
+				}
+				t.rooms[kk]["r1"] = true // joined by the gating middleware
 			} else {
 				t.state[kk] = "dead"
 				var c int
@@ -938,6 +945,9 @@ func runGenerated(sc *nsScenario, rng *vk.Rand, nops int, rawHeavy bool) {
 				op = &nsOp{Op: "release", N: nn, Ok: rng.Intn(4) != 0}
 			case st == "pending" && x < 10:
 				op = &nsOp{Op: "cemit", C: c, N: sp, Tag: tag, Ack: rng.Bool()} // emit before the CONNECT reply
+			case st == "pending" && x < 16:
+				// broadcast into the namespace (or the room the middleware put the socket in) while the CONNECT is held
+				op = &nsOp{Op: "bcast", N: nn, Tag: tag, Room: []string{"", "r1", "r1"}[rng.Intn(3)]}
 			case st == "connected" && x < 5:
 				op = &nsOp{Op: "cemit", C: c, N: sp, Tag: tag, Ack: rng.Bool()}
 			case st == "connected" && x < 9:
@@ -959,8 +969,10 @@ func runGenerated(sc *nsScenario, rng *vk.Rand, nops int, rawHeavy bool) {
 			switch x := rng.Intn(20); {
 			case st == "" && x < 9:
 				op = &nsOp{Op: "rconnect", C: c, N: spelledRaw(rng, nn)}
-			case st == "pending" && x < 10 && pendingHeld(nn):
+			case st == "pending" && x < 8 && pendingHeld(nn):
 				op = &nsOp{Op: "release", N: nn, Ok: rng.Intn(4) != 0}
+			case st == "pending" && x < 14:
+				op = &nsOp{Op: "bcast", N: nn, Tag: tag, Room: []string{"", "r1", "r1"}[rng.Intn(3)]}
 			case st == "connected" && x < 5:
 				id := -1
 				if rng.Bool() {
